@@ -26,6 +26,8 @@ CONSTANTS
   OthersCall = "never"
   KeepPagesWritable = FALSE
   TrampFlushed = TRUE
+  Regen = FALSE
+  SavedFrom = "install"
   MaxLives = 1
   MaxInstalls = 3
   MaxCtr = 2
